@@ -196,9 +196,14 @@ func VerifC09EscapeBackticks() {
 	vAssert(val == b, "escapeBackticks output evaluates to different text")
 }
 
+// free text as it reaches the templates (a decoded JSON/YAML string): any 7-bit character, carriage returns included
+func vFreeText(name string) string {
+	return vBytes(name, vParam("len"))
+}
+
 // C09: "// " + padComment(text) consists of line comments only
 func VerifC09PadComment() {
-	s := vSpecText("text")
+	s := vFreeText("text")
 	out := "// " + padComment(s)
 	ok := true
 	for i := 0; i < len(out); i++ {
